@@ -245,6 +245,7 @@ func (t *Target) HealthCheckCompleted(success bool) {
 	verifYield("hc_result", t, success)
 	previousState := t.state
 	newState := t.state
+	becameHealthy := false
 
 	t.withInflightLock(func() {
 		switch success {
@@ -252,7 +253,7 @@ func (t *Target) HealthCheckCompleted(success bool) {
 			switch t.state {
 			case TargetStateAdding:
 				t.state = TargetStateHealthy
-				close(t.becameHealthy)
+				becameHealthy = true
 			default:
 				t.state = TargetStateHealthy
 			}
@@ -273,6 +274,12 @@ func (t *Target) HealthCheckCompleted(success bool) {
 		if t.stateConsumer != nil {
 			t.stateConsumer.TargetStateChanged(t)
 		}
+	}
+
+	// Signal waiters only after the state consumer has seen the change, so
+	// that a deploy cannot go live before the target is in rotation.
+	if becameHealthy {
+		close(t.becameHealthy)
 	}
 	verifYield("hc_notified", t, success)
 }
